@@ -303,6 +303,12 @@ func (in *interp) loop(l *Loop) []*xm {
 	}
 	produced := 0
 	for i, it := range items {
+		if it.K == "nil" {
+			in.stat("item=nil")
+			if _, outer := in.resolve(l.Var); outer {
+				in.stat("item=nil-shadowing-a-bound-name")
+			}
+		}
 		sc := map[string]vals.V{l.Var: it}
 		if l.Idx != "" {
 			sc[l.Idx] = vals.Int(i)
